@@ -5,6 +5,7 @@ pub mod c05;
 pub mod c06;
 pub mod c07;
 pub mod c08;
+pub mod c09;
 pub mod c10;
 pub mod c11;
 pub mod c12;
@@ -27,6 +28,7 @@ pub fn run(ctx: &Ctx) -> bool {
         "C06" => c06::run(ctx),
         "C07" => c07::run(ctx),
         "C08" => c08::run(ctx),
+        "C09" => c09::run(ctx),
         "C10" => c10::run(ctx),
         "C11" => c11::run(ctx),
         "C12" => c12::run(ctx),
@@ -47,6 +49,18 @@ pub fn run(ctx: &Ctx) -> bool {
 pub fn tool(name: &str, args: &[String]) -> i32 {
     match name {
         "gen-golden" => c06::gen_golden(std::path::Path::new(args.first().map(|s| s.as_str()).unwrap_or("/verif/golden"))),
+        "bench-cli" => {
+            let n = 500; let t = std::time::Instant::now();
+            for _ in 0..n { let sb = crate::cli::Sandbox::new(); sb.write("a", b"x"); sb.write("b", b"y"); sb.write("c", b"z"); }
+            println!("sandbox+3 files: {:?} each", t.elapsed() / n);
+            let sb = crate::cli::Sandbox::new(); let t = std::time::Instant::now();
+            for _ in 0..n { let r = sb.cmd(&["-v"]).run(); assert_eq!(r.code, Some(0)); }
+            println!("run -v: {:?} each", t.elapsed() / n);
+            let t = std::time::Instant::now();
+            for _ in 0..n { let o = std::process::Command::new(crate::cli::kestrel_bin()).arg("-v").output().unwrap(); assert!(o.status.success()); }
+            println!("plain Command::output -v: {:?} each", t.elapsed() / n);
+            0
+        }
         _ => { eprintln!("unknown tool {}", name); 2 }
     }
 }
